@@ -300,7 +300,7 @@ def run_accept(case):
                 if same(attempt(mnemonic_to_bytes, " ".join(tf)), R.decode(tf)):
                     sp = "abbrev"  # the same sentence spelled with full words is handled correctly
             res.violation(
-                f"C14/accept/{cls_accept(got, exp)}/n{n}/{sp}",
+                f"C14/accept/{cls_accept(got, exp)}/{sp}",
                 vc, {"word": w, "got": got}, exp, f"substituting word {wi} ({w!r}) at position {p} of {len(toks)} ({form} spelling)",
             )
     base_hit = 1  # one of the 2048 is the base sentence itself
@@ -317,13 +317,14 @@ def gen_pairs(tier, seed):
     ps = [0] if tier == "quick" else list(range(last))
     for p in ps:
         for w1 in range(0, 2048, 4):
-            cases.append({"n": n, "base": "f0", "p": p, "q": last, "w1lo": w1, "w1hi": w1 + 4, "seed": seed})
+            # quick: every 4th word at position p (512 words) x all 2048 last words
+            cases.append({"n": n, "base": "f0", "p": p, "q": last, "w1lo": w1, "w1hi": w1 + (1 if tier == "quick" else 4), "seed": seed})
     if tier == "thorough":
-        n = 32
-        last = nwords(n) - 1
-        for p in (0, last - 1):
-            for w1 in range(0, 2048, 4):
-                cases.append({"n": n, "base": "f0", "p": p, "q": last, "w1lo": w1, "w1hi": w1 + 4, "seed": seed})
+        for n, ps in ((20, [0]), (24, [0]), (28, [0]), (32, [0, nwords(32) - 2])):
+            last = nwords(n) - 1
+            for p in ps:
+                for w1 in range(0, 2048, 4):
+                    cases.append({"n": n, "base": "f0", "p": p, "q": last, "w1lo": w1, "w1hi": w1 + 4, "seed": seed})
     return cases
 
 
@@ -417,7 +418,7 @@ def run_lengths(case):
     else:
         ex = R.xprv(R.seed(seq, b""))
         if got != ex:
-            res.violation(f"C14/lengths/from_mnemonic-valid/L{L}", vc, got, ex, "valid truncated sentence: wrong key or rejected")
+            res.violation(f"C14/lengths/from_mnemonic-valid/{'rejected' if isinstance(got, Rejected) else 'xprv-differs'}", vc, got, ex, f"valid {L}-word sentence: wrong key or rejected")
         else:
             res.ok("from_mnemonic xprv==ref", nontrivial=("hdlen", n, case["base"], L))
     return res
@@ -461,7 +462,7 @@ def run_accept_hd(case):
             if isinstance(got, Rejected):
                 res.ok("from_mnemonic rejects (checksum differs)", nontrivial=("hd", n, case["base"], p, form, wi))
             else:
-                res.violation(f"C14/accept_hd/accepted-invalid-checksum/n{n}", vc, {"word": w, "got": got}, None, f"HDPrivateKey.from_mnemonic accepts a sentence whose checksum is wrong ({form} spelling)")
+                res.violation("C14/accept_hd/accepted-invalid-checksum", vc, {"word": w, "got": got}, None, f"HDPrivateKey.from_mnemonic accepts a {len(t)}-word sentence whose checksum is wrong ({form} spelling)")
         else:
             ex = R.xprv(R.seed(t, b""))
             if got == ex:
@@ -720,12 +721,12 @@ def run_generate(case):
     finally:
         bm.randbits, bm.time = old
     if isinstance(got, Rejected):
-        res.violation(f"C14/generate/raised/r={case['rn']}/x={case['xn']}", vc, got, "a sentence", "secure_mnemonic fails for admissible arguments")
+        res.violation(f"C14/generate/raised/{'extra>=2^n' if x >> nb else 'extra<2^n'}", vc, got, "a sentence", f"secure_mnemonic({nb}, extra_entropy={case['xn']}) with randbits={case['rn']} fails")
         return res
     toks = got.split(" ") if isinstance(got, str) else []
     e = R.decode(toks)
     if e is None or len(e) * 8 != nb or any(tk not in R.INDEX for tk in toks):
-        res.violation(f"C14/generate/invalid-sentence/nb{nb}", vc, got, f"valid BIP39 sentence for {nb} bits", "secure_mnemonic returns a sentence that is not valid BIP39 of the requested size")
+        res.violation("C14/generate/invalid-sentence", vc, got, f"valid BIP39 sentence for {nb} bits", "secure_mnemonic returns a sentence that is not valid BIP39 of the requested size")
         return res
     xm = x & ((1 << nb) - 1) if x.bit_length() > nb else x
     formula = (r ^ xm ^ int(t * 1_000_000)) == int.from_bytes(e, "big")
@@ -755,8 +756,8 @@ def engines(tier, seed):
         ),
         Engine(
             "pairs", gen_pairs, run_pairs, kind="E1",
-            rule="12-word base (thorough: also 24-word) x position pair (p, last) x 2048 x 2048 double substitutions: accepted <=> reference accepts, bytes equal. "
-            "quick p=0; thorough every p. Non-trivial = every pair (distinct by construction)",
+            rule="12-word base x position pair (p, last) x 2048 x 2048 double substitutions: accepted <=> reference accepts, bytes equal. quick p=0 with every 4th word (512) x all 2048 last words; "
+            "thorough every p < last, plus 15/18/21/24-word bases with p=0 and the 24-word base with p=22. Non-trivial = every pair (distinct by construction)",
         ),
         Engine(
             "lengths", gen_lengths, run_lengths, kind="E1",
